@@ -137,7 +137,7 @@ def libcall(fn, *a, **k):
 # --------------------------------------------------------------------------
 # tensor recipes: all content randomness comes from Hypothesis-drawn seeds
 RECIPE_KINDS = ['gaussian', 'gaussian', 'sparse', 'constant', 'wide', 'offset',
-                'ramp', 'ints', 'spike', 'contrast']
+                'ramp', 'ints', 'spike', 'contrast', 'grating']
 
 
 def make(recipe, shape, dtype=np.float64):
@@ -180,6 +180,28 @@ def make(recipe, shape, dtype=np.float64):
         a = a.reshape(shape)
     elif kind == 'zeros':
         a = np.zeros(shape)
+    elif kind == 'grating':
+        # an oriented sinusoid (one per leading slice): energy in one orientation / one band only, its mirror
+        # orientation and the other bands (nearly) empty - the structured counterpart of noise
+        fr = [(0.25, 0.25), (0.25, -0.25), (0.25, 0.0), (0.0, 0.25), (0.125, 0.125), (0.125, -0.25), (0.5, 0.0),
+              (0.5, 0.5), (0.1875, 0.0625), (0.0, 0.0625)]
+        sp = shape[-2:] if len(shape) >= 2 else shape
+        lead = int(np.prod(shape[:-len(sp)])) if len(shape) > len(sp) else 1
+        a = np.empty((lead,) + tuple(sp))
+        for i in range(lead):
+            fy, fx = fr[rs.randint(len(fr))]
+            ph = [0.0, 0.25 * np.pi, 0.5 * np.pi, rs.rand() * 2 * np.pi][rs.randint(4)]
+            if rs.randint(10) < 3:
+                # the period-4 diagonal stripes (+ + - -): the mirrored diagonal orientation is exactly empty
+                fy, fx = 0.25, [0.25, -0.25][rs.randint(2)]
+                ph = 0.25 * np.pi + 0.5 * np.pi * rs.randint(4)
+            amp = [1.0, 1.0, 100.0, 255.0][rs.randint(4)]
+            if len(sp) == 2:
+                yy, xx = np.meshgrid(np.arange(sp[0]), np.arange(sp[1]), indexing='ij')
+                a[i] = amp * np.cos(2 * np.pi * (fy * yy + fx * xx) + ph)
+            else:
+                a[i] = amp * np.cos(2 * np.pi * fy * np.arange(sp[0]) + ph)
+        a = a.reshape(shape)
     else:
         raise ValueError('unknown recipe kind %r' % (kind,))
     a = a * (10.0 ** int(recipe.get('scale', 0)))
